@@ -171,6 +171,7 @@ type harnessState struct {
 
 	forever chan struct{} // never closed
 
+	scratch    []tea.Cmd
 	lastKey    atomic.Value // key of the message of the most recent Update
 	afterFired int32
 
@@ -510,6 +511,13 @@ func (h *harnessState) buildCmd(cs *pCmdSpec) tea.Cmd {
 		return nil
 	}
 	switch {
+	case cs.Batch != nil && cs.Reuse:
+		// a model that keeps one scratch []Cmd and refills it on every Update (called on the event loop only)
+		h.scratch = h.scratch[:0]
+		for _, c := range *cs.Batch {
+			h.scratch = append(h.scratch, h.buildCmd(c))
+		}
+		return tea.Batch(h.scratch...)
 	case cs.Batch != nil:
 		l := make([]tea.Cmd, 0, len(*cs.Batch))
 		for _, c := range *cs.Batch {
